@@ -207,7 +207,7 @@ func hostKind(h string) string {
 
 func TestCheck(t *testing.T) {
 	r := vp.New("C20", "exploration",
-		"URL round trip: nested loops over scheme x host x port x path (paths: every sequence of <=N symbols over all printable ASCII characters, 'é', '%2F', '%25', '//' after a leading '/'); URLs given as text and parsed with net/url: every printable ASCII character and 'é' written as a percent-escape in upper- and lower-case hex, alone, inside segments and in ordered pairs (the decoded path is what has to survive); a case is non-trivial when it has a port or a path; distinct = distinct (scheme,host,port,path). Helpers: every list of length <=4 over a 22-address alphabet (public, private, loopback, unspecified, localhost; the IP followed by tcp, udp, sctp, tls, http or nothing) incl. nil and duplicates, all pairs of lists of length <=3 for equality.",
+		"URL round trip: nested loops over scheme x host x port x path (paths: every sequence of <=N symbols over all printable ASCII characters, 'é', '%2F', '%25', '//' after a leading '/'); URLs given as text and parsed with net/url: every printable ASCII character and 'é' written as a percent-escape in upper- and lower-case hex, alone, inside segments and in ordered pairs (the decoded path is what has to survive); a case is non-trivial when it has a port or a path; distinct = distinct (scheme,host,port,path). Helpers: every list of length <=4 over a 27-address alphabet (public, private, loopback, unspecified, localhost; the IP followed by tcp, udp, sctp, tls, http or nothing; http after tls/sni and before /p2p; ws / wss, which are not http) incl. nil and duplicates, all pairs of lists of length <=3 for equality.",
 		"URLs are built as url.URL{Scheme,Host,Path} values, and (section 2b) parsed from text; hosts are limited to 3 IPv4, 3 IPv6 (no zone, not v4-mapped) and 3 DNS names",
 		"IPv6 hosts are compared as IP values, not as text",
 		"FilterPublic: link-local and other special ranges that are neither loopback, private (net.IP.IsPrivate) nor unspecified are accepted either way; nothing is required of nil entries",
@@ -402,6 +402,12 @@ var addrAlphabet = []addrSym{
 	{s: "/ip4/127.0.0.1/sctp/5000", remove: true},
 	{s: "/ip4/8.8.4.4/udp/4001/quic-v1", keep: true},
 	{s: "/ip4/8.8.4.4/http", http: true, keep: true},
+	// http(s) behind other components, and secure transports that are not http
+	{s: "/dns/example.com/tcp/443/tls/sni/example.com/http", http: true, keep: true},
+	{s: "/ip4/8.8.8.8/tcp/80/http/p2p/12D3KooWBahVhXpN2F6NMjC4BDSNXLWnGtjHwcVbR2qJUK2xWx1J", http: true, keep: true},
+	{s: "/ip4/8.8.8.8/tcp/443/tls/ws", keep: true},
+	{s: "/ip4/8.8.8.8/tcp/443/wss", keep: true},
+	{s: "/ip4/10.9.9.9/tcp/443/tls/sni/internal.example/http", http: true, remove: true},
 	{s: "", http: false}, // nil entry
 }
 
